@@ -10,6 +10,7 @@ import glob
 import importlib
 import os
 import traceback
+import warnings
 
 from . import build
 
@@ -43,8 +44,9 @@ def regenerate():
             continue
         pid = name.upper()
         try:
-            mod = importlib.import_module("vp.props." + name)
-            text, info = mod.facts(REPO)
+            with warnings.catch_warnings():  # importing deephyper (some plug-ins do) resets the warning filters
+                mod = importlib.import_module("vp.props." + name)
+                text, info = mod.facts(REPO)
         except Exception:
             text, info = fail_closed("facts() raised: " + traceback.format_exc()[-800:]), {"error": traceback.format_exc()[-800:]}
         if "srcfacts_ok" not in text:
